@@ -294,7 +294,9 @@ class ResolvePortRefs(ElabPass):
 
         # Set the signal name, either from the NoConn or the instance/port names
         if noconn.name is not None:
-            sig.name = noconn.name
+            # The `NoConn`'s name is a request, honored unless it is already taken in `module`.
+            # Adding a same-named signal would silently replace - and short the port to - the existing attribute.
+            sig.name = self.flatname(segments=[noconn.name], avoid=module.namespace)
         else:
             sig.name = self.flatname(
                 segments=[f"{portref.inst.name}_{portref.portname}"],
